@@ -183,6 +183,16 @@ def apply_restart(sess, op):
     if skew:
         doc = json.loads(w.disk.files["restart.json"])
         doc["system"]["version"] = skew["version"]
+        if skew.get("garble") and skew["dir"] == "newer":
+            # a newer format: this release cannot make sense of the body
+            ent = [k_ for k_ in doc if k_ != "system"]
+            if skew["garble"] == "type":
+                doc[ent[0]]["type"] = "SUPERSOURCE"
+            elif skew["garble"] == "params":
+                doc[ent[0]].pop("params", None)
+            else:
+                doc["future section"] = {"anything": 1}
+            sess.stats["fault_fired:newer_file_unreadable_body"] += 1
         w.disk.files["skew.json"] = json.dumps(doc)
         r = sess._guard(lambda: S.System.from_file("skew.json"))
         sess.stats["fault_fired:version_skew_" + skew["dir"]] += 1
@@ -253,7 +263,9 @@ def apply_observe(sess, op):
     ta = op.get("ta", 25.0)
     sess.interleave.append(("observe", "ok"))
     sess.outcomes.append("ok")
-    kw = {"energy": True, "ta": ta}
+    from .session import flag
+
+    kw = {"energy": flag(True, op.get("flagform")), "ta": ta}
     kw.update(op.get("kw", {}))
     vt, it = kw.get("vtol", 1e-6), kw.get("itol", 1e-6)
     if kw.get("phase") and kw["phase"] not in m.sys_phases:
